@@ -2,7 +2,7 @@
 
 spec/GroupOps.tla + Groups.tla (+ MC_Groups, Trace_Groups);
 harness/server/c12 (directly constructed consumerGroup values) and harness/server/c06
-(the same histories through Server.apply with the real asynchronous StreamDeleted goroutine).
+(the same histories through Server.apply, whose DELETE_STREAM announces the deletion to the groups before it returns).
 """
 import os
 import random
@@ -13,20 +13,20 @@ META = {
     'property_id': 'C12',
     'level': 'model_checking',
     'technique': 'TLA+ spec of the assignment algorithm (GroupOps.tla/Groups.tla, transcribed from groups.go incl. the '
-                 'shared per-consumer counter and the asynchronous StreamDeleted step) checked exhaustively by TLC; '
+                 'shared per-consumer counter and StreamDeleted as part of the DELETE_STREAM apply) checked exhaustively by TLC; '
                  'every transition of a small instance plus simulated deeper behaviours replayed on real consumerGroup '
                  'values and through Server.apply; every recorded step judged by TLC (trace validation)',
     'level_text': 'TLC enumerates every order of create/delete stream, create group, join, leave, expire, coordinator '
-                  'change and asynchronous StreamDeleted (per server, at every position after its delete) within small '
+                  'change and restore within small '
                   'bounds and proves exactly-one / no-foreign / assigned-partitions-exist / +-1 balance / '
                   'same-epoch-same-assignment / convergence on the specification; all transitions of a smaller instance '
                   'and seeded simulations are executed on two real consumer groups (and on two real Servers through '
-                  'Server.apply, the StreamDeleted goroutine held at a gate and released where the behaviour says) and '
+                  'Server.apply; an announcement of a deleted stream that does not come from the applying goroutine is '
+                  'held at a gate, so that the recorded state shows what later operations would meet) and '
                   'TLC re-evaluates the same predicates on every recorded state.',
     'level_note': 'One group id; two servers. Quick: exhaustive design check <= 5 operations over 3 consumers x 2 streams '
                   'x <= 2 partitions, all transitions of the <= 3 operation instance replayed. Member expiry is played '
-                  'by invoking the liveness-timer callback (timers themselves are set to one hour). The per-stream '
-                  'requirements are imposed on a stream only while no StreamDeleted for it is outstanding on that server.',
+                  'by invoking the liveness-timer callback (timers themselves are set to one hour).',
     'design_ref': 'DESIGN.md section 6/C12',
 }
 
@@ -38,7 +38,6 @@ LABELS = {
     'MCJoin': lambda a: {'a': 'Join', 'c': a[0], 'streams': sorted(a[1]['__set__'])},
     'MCLeave': lambda a: {'a': 'Leave', 'c': a[0], 'how': a[1]},
     'MCChangeCoordinator': lambda a: {'a': 'ChangeCoordinator', 'coord': a[0]},
-    'MCRunSD': lambda a: {'a': 'RunSD', 'srv': a[0], 's': a[1], 'e': a[2]},
     'MCRestore': lambda a: {'a': 'Restore', 'srv': a[0]},
     'MCGetAssignments': lambda a: {'a': 'GetAssignments', 'srv': a[0], 'c': a[1], 'd': a[2]},
 }
@@ -278,14 +277,15 @@ def run(rep, tier, seed, replay):
     if res['violated']:
         raise core.Inconclusive('design check reports %s (specification and property disagree on the model): %s'
                                 % (res['violated'], res['out'][-1500:]))
-    # the known finding must be reachable in the model (ghost taint), otherwise the model lost it
+    # the open finding (assignments after a restore that is not history-neutral) must be reachable in the model
+    # (ghost taint), otherwise the model lost it
     fres = core.tlc_check('MC_Groups.tla', 'MC_Groups_finding.cfg', timeout=600, workers=4)
     rep.cov['design_checks'].append({'config': 'MC_Groups_finding', 'violated': fres['violated'],
-                                     'note': 'expected: Raw_SameEpochSame violated (asynchronous StreamDeleted overtaken)'})
-    if 'Raw_SameEpochSame' not in fres['violated']:
+                                     'note': 'expected: Raw_Converged violated (group rebuilt by a restore differs from the live one)'})
+    if 'Raw_Converged' not in fres['violated']:
         raise core.Inconclusive('model no longer reproduces the open finding: %s' % fres['out'][-1000:])
     # 2. behaviours: every transition of the small instance + simulation
-    # MC_Groups_replay_recreate: directed family (one stream deleted, announced, created again with any partition
+    # MC_Groups_replay_recreate: directed family (one stream deleted, created again with any partition
     # count, then group operations; 6 steps) - both tiers
     behaviours, covered, total = [], 0, 0
     for cfg, consumers in (('MC_Groups_replay.cfg' if quick else 'MC_Groups_replay_thorough.cfg', ['c1', 'c2', 'c3']),
